@@ -71,6 +71,16 @@ func (t *RegistryTracer) idOf(m *component_definition.Meta) (int, int) {
 	return id, rid
 }
 
+// Mark inserts a marker event that is not a registry call (e.g. the window of a lookup issued by user code).
+func (t *RegistryTracer) Mark(op, phase, name string) {
+	if t == nil {
+		return
+	}
+	t.mu.Lock()
+	defer t.mu.Unlock()
+	t.ev = append(t.ev, TraceEv{Seq: len(t.ev), Phase: phase, Op: op, Name: name, Depth: t.depth})
+}
+
 func (t *RegistryTracer) begin(op, name string, allow bool) int {
 	t.mu.Lock()
 	defer t.mu.Unlock()
